@@ -429,7 +429,9 @@ def c_case(case, res):
     if "exc" in re_:
         reimp, code = "None", EXC_CODE.get(re_["exc"], 98)
     else:
-        reimp, code = "(Some %s)" % clist([c_jsvc(s) for s in re_["export"]]), 0
+        reimp, code = "(Some (%s, %s, %s))" % (clist([c_jsvc(s) for s in re_["export"]]),
+                                               clist(["(%d, %d, %d)" % (k, CLS_CODE[c], h) for k, c, h in re_["db"]]),
+                                               c_look(case, re_["lookups"])), 0
     return "(mkCase %d %s %s %s %s %s %s %s %s %d)" % (
         case["start"], clist([c_sdef(s) for s in case["services"]]), clist([c_op(o) for o in case["ops"]]),
         c_light(res["steps"][0]), clist([c_light(l) for l in res["steps"][1:]]),
@@ -474,8 +476,6 @@ def check_layout(start, light, shapes, strong):
         if k != h:
             bad.append("attribute registered at handle %d carries handle %d" % (k, h))
             break
-    if keys != sorted(keys):
-        bad.append("dump not sorted")
     # every listed service range internally covered; gaps only between services
     svcs = light["svcs"]
     if len(svcs) != len(shapes):
@@ -578,8 +578,18 @@ def check_final(case, res, shapes):
                 bad.append("characteristic at %d: %d CCC descriptors, %d expected" % (ch, ncccd, want_cccd))
         if se["end"] != want - 1:
             bad.append("service at %d: end handle %d but its last own attribute is %d" % (h, se["end"], want - 1))
-    # ---- lookups agree with the layout
-    lk = res["lookups"]
+    bad += check_lookups_py(case, res["final"], res["lookups"])
+    return bad
+
+
+def check_lookups_py(case, final, lk):
+    """Every lookup of the profile agrees with the attributes its database holds (the layout):
+    by handle, by value handle, by characteristic handle, by handle range, by attribute type
+    (as a set: the order in which attr_by_type_uuid yields is not part of the property),
+    by service / characteristic UUID.  `final` = the full dump of that profile."""
+    bad = []
+    db = {e["key"]: e for e in final}
+    svc_entries = sorted((e for e in final if e["cls"] == "svc"), key=lambda e: e["key"])
     q = case["queries"]
     for h, r in enumerate(lk["by_handle"], lk["hmin"]):
         e = db.get(h)
@@ -605,25 +615,25 @@ def check_final(case, res, shapes):
     for (a, b), r in zip(q["ranges"], lk["ranges"]):
         exp = [[db[k]["cls"], db[k]["handle"]] for k in sorted(db) if a <= k <= b]
         if r != exp:
-            bad.append("find_objects_by_range(%d,%d) disagrees with the layout" % (a, b)); break
+            bad.append("find_objects_by_range(%d,%d) = %r, layout says %r" % (a, b, r if isinstance(r, dict) else r[:12], exp[:12])); break
     for (u, a, b), r in zip(q["by_type"], lk["by_type"]):
         pk = uuid_packed(u)
         exp = sorted(k for k in db if a <= k <= b and
                      int(db[k]["type"]["v"]) == int.from_bytes(pk, "little") and db[k]["type"]["k"] == (16 if len(pk) == 2 else 128))
-        if r != exp:
+        if isinstance(r, dict) or sorted(r) != exp:
             bad.append("attr_by_type_uuid(%s,%d,%d) = %r, layout says %r" % (uuid_text(u), a, b, r, exp)); break
     for name in ("svc_by_uuid", "svc_by_uuid_old"):
         for u, r in zip(q["svc_uuids"], lk[name]):
             pk = uuid_packed(u)
             cands = [e["handle"] for e in svc_entries if int(e["uuid"]["v"]) == int.from_bytes(pk, "little")
                      and e["uuid"]["k"] == (16 if len(pk) == 2 else 128)]
-            if (r is None and cands) or (r is not None and r not in cands):
+            if isinstance(r, dict) or (r is None and cands) or (r is not None and r not in cands):
                 bad.append("%s(%s) = %r, layout says %r" % (name, uuid_text(u), r, cands)); break
     for u, r in zip(q["chr_uuids"], lk["chr_by_uuid"]):
         pk = uuid_packed(u)
-        cands = [e["handle"] for e in res["final"] if e["cls"] == "chr" and int(e["uuid"]["v"]) == int.from_bytes(pk, "little")
+        cands = [e["handle"] for e in final if e["cls"] == "chr" and int(e["uuid"]["v"]) == int.from_bytes(pk, "little")
                  and e["uuid"]["k"] == (16 if len(pk) == 2 else 128)]
-        if (r is None and cands) or (r is not None and r not in cands):
+        if isinstance(r, dict) or (r is None and cands) or (r is not None and r not in cands):
             bad.append("char(%s) = %r, layout says %r" % (uuid_text(u), r, cands)); break
     return bad
 
@@ -729,6 +739,19 @@ def oracle(ctx, case, res, tag):
     elif not re_["same"]:
         n += ctx.violation("export(import(export p)) differs from export p", small,
                            expected=res.get("export_text", "")[:1500], observed=re_["export"])
+    else:
+        # the re-imported profile: its database keeps every handle under the attribute that carries it,
+        # and ALL its lookups agree with that database
+        ikeys = [k for k, _c, _h in re_["db"]]
+        stale = [[k, h] for k, _c, h in re_["db"] if k != h]
+        if len(set(ikeys)) != len(ikeys) or stale:
+            n += ctx.violation("re-imported profile: attribute registered under a handle it does not carry", small,
+                               expected="key = handle", observed=stale[:5])
+            return n
+        bad = check_lookups_py(case, re_["final"], re_["lookups"])
+        if bad:
+            n += ctx.violation("lookups on the re-imported profile disagree with its database: %s" % bad[0], small,
+                               expected="lookups = layout, whatever the registration order", observed={"problems": bad[:8], "db_order": re_["db"][:40]})
     return n
 
 
@@ -760,7 +783,7 @@ def run(ctx):
     ctx.cov["trusted_base"] = [
         "Coq 8.16.1 kernel + vm_compute (no native_compute); theorems closed under the global context (Print Assumptions checked each run)",
         "hand-written model coq/theories/C16/Model.v tied to whad/ble/profile/{__init__,service,characteristic,attribute}.py and SecurityAccess by the correspondence of this run (sampled)",
-        "the Python dict __attr_db is modelled as a finite map (association list sorted by key); dict iteration order is not modelled: observables are compared sorted by handle, char(uuid)/service(uuid) with several matches are checked for membership",
+        "the Python dict __attr_db is modelled as an association list in insertion order with dict semantics (assignment keeps the position of an existing key, new keys go last); iteration order is compared exactly, after every step and on the re-imported profile",
         "UUID text <-> UUID object parsing (UUID.__init__/__repr__) is not modelled: a UUID is (kind, value) and UUID(str(u)) is taken to give u back for the 4-character and 8-4-4-4-12 texts every constructor form produces; the re-import and the exact text identity of export(import(export p)) are checked by the oracle on the implementation for every constructor form (int16, str4, bytes2, str36, bytes16, int128)",
         "remove_service locates the service by UUID, the model by identity: equal when the service UUIDs of a profile are pairwise distinct (generator guarantees it)",
         "UTF-8 encode/decode of user descriptions (str -> bytes -> str) taken as identity on text built from str",
